@@ -43,3 +43,17 @@ Theorem C13_first_moment_transfers_along_projection_given_ExpLaws :
 Proof. by move=> *; apply: m1_lumping. Qed.
 End C13.
 Print Assumptions C13_first_moment_transfers_along_projection_given_ExpLaws.
+
+(* ------------------------------------------------------------------------------------------------
+   Unconditional over the reals: the laws E0-E2 (and positivity) are theorems about the real matrix
+   exponential mexp (analysis/MExp.v: entrywise limit of the exponential series), so the statements
+   above hold for the matrix exponential itself, not only "given ExpLaws". *)
+From Coq Require Import Rdefinitions.
+From PG Require Import analysis.Rstruct analysis.RSums analysis.MExp analysis.MExpLaws.
+
+Theorem C13_first_moment_transfers_along_projection_real :
+  forall m n (SL RL : 'M[R]_m) (SC RC : 'M[R]_n) (P : 'M[R]_(m, n)) (aL : 'rV[R]_m) (eC : 'cV[R]_n) (t : R),
+    SL *m P = P *m SC -> RL *m P = P *m RC ->
+    aL *m ursubmx (mexp (t *: vl1 SL RL)) *m (P *m eC) = (aL *m P) *m ursubmx (mexp (t *: vl1 SC RC)) *m eC.
+Proof. by move=> *; apply: (m1_lumping (expm := fun n : nat => @mexp n) (@mexp_intertwine)). Qed.
+Print Assumptions C13_first_moment_transfers_along_projection_real.
